@@ -46,6 +46,10 @@ Proof.
   rewrite check_permission_admin by exact H. reflexivity.
 Qed.
 
+(* chown(2) never refuses the administrator *)
+Lemma chown_ok_admin m u uid gid : us_admin u = true -> chown_ok m u uid gid = true.
+Proof. intros H. unfold chown_ok. rewrite H. reflexivity. Qed.
+
 Lemma set_mode_ok_admin m u : us_admin u = true -> set_mode_ok m u = true.
 Proof. intros H. unfold set_mode_ok. rewrite H. apply orb_true_r. Qed.
 
